@@ -224,6 +224,8 @@ func buildProgram(p *Program, pluginBin, out string, kl, km int) (*BuildInfo, er
 			switch fam {
 			case "rt":
 				g.harnessRT(r)
+			case "corrupt":
+				g.harnessCorrupt(r)
 			case "schema":
 				g.harnessSchema(r)
 			case "from":
@@ -237,7 +239,7 @@ func buildProgram(p *Program, pluginBin, out string, kl, km int) (*BuildInfo, er
 	}
 	info.Harnesses = g.hs
 	info.KL, info.KM = kl, km
-	imports := []string{`"context"`, `"time"`, `"github.com/hashicorp/terraform-plugin-framework/attr"`, `"github.com/hashicorp/terraform-plugin-framework/diag"`,
+	imports := []string{`"context"`, `"time"`, `"strconv"`, `"github.com/hashicorp/terraform-plugin-framework/attr"`, `"github.com/hashicorp/terraform-plugin-framework/diag"`,
 		`"github.com/hashicorp/terraform-plugin-framework/types"`, `"github.com/hashicorp/terraform-plugin-framework/tfsdk"`, `"` + modName + `/vrt"`}
 	writeFile(filepath.Join(out, pkg, "zz_spec.go"), []byte(g.file(pkg, imports)))
 	b, _ := json.MarshalIndent(info, "", " ")
